@@ -36,16 +36,16 @@ Record target_obs := {
 }.
 
 Inductive case :=
-| CFlow (canon : bool) (started : list flow) (issued : list sealed) (r : cb_req)
+| CFlow (canon strict : bool) (started : list flow) (issued : list sealed) (r : cb_req)
         (redir : list (str * str)) (o : flow_obs)
 | CTarget (hosts : list str) (hdr_host : str) (t : str) (o : target_obs).
 
 (* ------------------------------------------------------------------ model predictions *)
 Definition session_opt_eqb := option_eqb session_eqb.
 
-Definition flow_mismatch (canon : bool) (r : cb_req) (redir : list (str * str)) (o : flow_obs) : bool :=
+Definition flow_mismatch (canon strict : bool) (r : cb_req) (redir : list (str * str)) (o : flow_obs) : bool :=
   negb (bool_eqb (redeem_called r) (fo_redeem_called o)) ||
-  match oauth_callback canon PROXY_KEY r with
+  match oauth_callback canon strict PROXY_KEY r with
   | CbPage st =>
       negb (N.eqb st (fo_status o) && session_opt_eqb None (fo_session o) && negb (fo_csrf_cleared o))
   | CbOk s loc =>
@@ -212,8 +212,8 @@ Definition flow_known (canon : bool) (started : list flow) (issued : list sealed
 
 Definition judge (c : case) : N :=
   match c with
-  | CFlow canon started issued r redir o =>
-      code (flow_mismatch canon r redir o) (flow_holds started issued r redir o)
+  | CFlow canon strict started issued r redir o =>
+      code (flow_mismatch canon strict r redir o) (flow_holds started issued r redir o)
            (flow_known canon started issued r redir o)
   | CTarget hosts hh t o =>
       code (target_mismatch hosts hh t o) (target_holds hosts hh t o) 0
@@ -221,7 +221,7 @@ Definition judge (c : case) : N :=
 
 (* ------------------------------------------------------------------ classes for the evidence histogram *)
 (* first guard of the model that stops the callback (0 = none: session set) *)
-Definition cb_branch (canon : bool) (r : cb_req) : N :=
+Definition cb_branch (canon strict : bool) (r : cb_req) : N :=
   if negb (cb_form_ok r) then 1
   else if negb (nil_str (cb_error r)) then 2
   else match redeem_code (cb_code r) (cb_redeem r) with
@@ -230,6 +230,7 @@ Definition cb_branch (canon : bool) (r : cb_req) : N :=
     match unmarshal_state canon PROXY_KEY (cb_state r) with
     | None => 4
     | Some st =>
+      if strict && N.eqb (f_sid st) 0 then 10 else
       match cb_cookie r with
       | None => 5
       | Some cw =>
@@ -245,10 +246,10 @@ Definition cb_branch (canon : bool) (r : cb_req) : N :=
 
 Definition classify (c : case) : N :=
   match c with
-  | CFlow canon started issued r redir o =>
+  | CFlow canon strict started issued r redir o =>
       match fo_session o with
       | Some _ => 1 + flow_known canon started issued r redir o      (* 1 own flow, 2 K1, 3 K2 *)
-      | None => 10 + cb_branch canon r
+      | None => 10 + cb_branch canon strict r
       end
   | CTarget hosts hh t o =>
       100 + match route hosts hh t with
